@@ -26,8 +26,8 @@ from .syncenv import INF, Env, FakeSocket, Fuel, StubSelector, patched_clock
 
 NONTRIVIAL_RULE = "the peer closed inside a frame or separator, or at least two packets were delivered before end-of-stream"
 STUBS = ["FakeSocket/StubSelector (sync), MemStreamTransport (async): recv returns 1..min(room, available) bytes, then 0 bytes at EOF exactly once; a further read would block forever (the strictest transport allowed by the StreamReadTransport contract, so re-reading after end-of-stream shows up as a hang)"]
-ASSUMPTIONS = ["frames are valid and safely within the limit (malformed frames are C02's subject)", "recv_packet is called with timeout=None (timeouts are C11's subject)"]
-BOUNDS = {"quick": "<= 2 frames of <= 2 bytes + a 1-2 byte tail, separator LF/CRLF, close position anywhere, H = frames + 3 calls, max_recv_size in {1, 2, 16}", "thorough": "3 frames, longer payloads"}
+ASSUMPTIONS = ["frames are valid and safely within the limit (malformed frames are C02's subject)", "recv_packet is called with timeout=None except in the timed-eof shards (finite timeouts T in {0, 1, 2} ticks around the peer's close; timeout accounting itself is C11's subject)"]
+BOUNDS = {"quick": "<= 2 frames of <= 2 bytes + a 1-2 byte tail, separator LF/CRLF, close position anywhere, H = frames + 3 calls, max_recv_size in {1, 2, 16}; timed-eof: 1 frame + 2-byte tail, timeouts T in {0, 1, 2} ticks, <= 2 would-blocks, 7 calls", "thorough": "3 frames, longer payloads"}
 OUTSIDE = "real sockets, TLS transports, AsyncTCPNetworkClient wiring (its endpoint is the one driven here)"
 
 
@@ -197,6 +197,72 @@ def endpoint(lens: list, tail: int, seplen: int, path: str, mode: str, bufsize: 
     return scenario
 
 
+def timed_eof(kind: str, path: str, T: int, rsize: int = 2):
+    """Receives with a FINITE timeout around the peer's close: the stream 'A\\n' + an unterminated tail 'xy' is handed out in pieces
+    of <= rsize bytes with solver-chosen would-block results, the selector lets a solver-chosen time (0..T) pass, then the socket
+    reports end-of-stream exactly once and blocks afterwards.  Up to 7 recv_packet(timeout=T) calls.  Asserted: 'A' is delivered
+    once, before end-of-stream; calls may time out before end-of-stream was reported, but once it was reported every later call
+    reports it again (no TimeoutError, no data, no hang); the tail never surfaces; end-of-stream is reached."""
+    from .syncenv import patched_clock
+
+    def scenario(S):
+        stream = b"A\nxy"
+        env = Env(S, fuel=120, max_eagain=2, cap=rsize, elapsed_max=max(T, 1))
+        sock = FakeSocket(env, incoming=stream, eof_after=True, eof_once=True)
+        ser = L.RawSep(b"\n", limit=8)
+        proto = BufferedStreamProtocol(ser) if path == "buf" else StreamProtocol(ser)
+        saved = tcp_mod.SocketStreamTransport
+        outcomes = []
+        try:
+            if kind == "client":
+                tcp_mod.SocketStreamTransport = lambda s, retry_interval: saved(s, retry_interval, selector_factory=lambda: StubSelector(env))
+                obj = TCPNetworkClient(sock, proto, retry_interval=INF, max_recv_size=rsize)
+            else:
+                trs = SocketStreamTransport(sock, INF, selector_factory=lambda: StubSelector(env))
+                obj = StreamEndpoint(trs, proto, max_recv_size=rsize)
+            with patched_clock(env):
+                for _ in range(7):
+                    try:
+                        outcomes.append(("pkt", obj.recv_packet(timeout=T)))
+                    except ConnectionAbortedError:
+                        outcomes.append(("eof", None))
+                    except TimeoutError:
+                        outcomes.append(("timeout", None))
+                    except Fuel:
+                        outcomes.append(("hang", None))
+                        break
+                    except Exception as ex:  # noqa: BLE001
+                        outcomes.append(("raised:" + type(ex).__name__, None))
+        finally:
+            tcp_mod.SocketStreamTransport = saved
+            sock.really_close()
+        ok = True
+        seen_eof = False
+        npk = 0
+        for k, val in outcomes:
+            if k == "pkt":
+                if seen_eof or npk >= 1 or not (val == b"A"):
+                    ok = False
+                npk += 1
+            elif k == "eof":
+                if not seen_eof and npk != 1:
+                    ok = False
+                seen_eof = True
+            elif k == "timeout":
+                if seen_eof:
+                    ok = False  # end-of-stream was reported, then a later call blocked until its timeout instead of reporting it again
+            else:
+                ok = False
+        if not seen_eof:
+            ok = False
+        tags = []
+        if any(k == "timeout" for k, _ in outcomes):
+            tags.append("timed-out-before-eof")
+        return Outcome(ok=ok, skeleton=[k for k, _ in outcomes], tags=tuple(tags), detail={"outcomes": outcomes, "T": T, "selects": env.selects})
+
+    return scenario
+
+
 def shards(tier: str):
     out = []
     quick = tier == "quick"
@@ -219,5 +285,8 @@ def shards(tier: str):
     for path in ("copy", "buf"):
         for mode in ("sync", "async", "client"):
             add(f"none/{mode}/{path}/1+1t0", dict(lens=[1, 1], tail=0, seplen=1, path=path, mode=mode, bufsize=16, none_packets=True), cost=500)
+        for kind in ("endpoint", "client"):
+            for T in (0, 1, 2):
+                out.append({"name": f"timed-eof/{kind}/{path}/T{T}", "scenario": "props.c03:timed_eof", "params": dict(kind=kind, path=path, T=T, rsize=2 if quick else 1), "budget": B, "cost": 600, "per_path_timeout": 30})
         add(f"soerror/client/{path}/1+1t1", dict(lens=[1, 1], tail=1, seplen=1, path=path, mode="client", bufsize=16, so_error=True), cost=300)
     return out
